@@ -637,7 +637,7 @@ func TestC30(t *testing.T) {
 			"each call carries a unique uid (ARGV[1], returned by the script) and its own counter key; a case is (constructor, client kind, Exec|ExecMulti, step kind, observed command/reply sequence); non-trivial when the call reached the server")
 	defer run.Finish()
 	run.Assume("fakeredis executes scripts with minilua and logs one 'script' event per body execution on the requesting connection", "the NOSCRIPT / script cache behaviour of fakeredis (per node cache, EVAL loads, SCRIPT FLUSH empties) is that of Redis")
-	n := run.N(600, 8000)
+	n := run.N(1000, 8000)
 	base := run.Rand("cases").Int63()
 	for i := 0; i < n; i++ {
 		func() {
